@@ -2,6 +2,18 @@
 from .common import *
 from .c03 import div_pair
 from .c02 import mul_pair
+from . import widthsweep as _ws
+
+HARNESS_BINS_THOROUGH = ["widths"]
+
+
+def ROUTE(line):
+    # the c17 bin instantiates CFGS17 only; every other u8xN (from the all-widths sweep) goes to `widths`
+    p = line.split(" ")
+    if p[0] == "from_str" and p[1].startswith("u8x") and p[1][1:] not in CFGS17:
+        return "widths"
+    return "c17"
+
 
 CFGS17 = ["8x1", "8x2", "8x3", "8x5", "8x17", "16x1", "16x3", "16x4", "32x2", "32x3", "64x1", "64x2", "64x3", "64x16"]
 QUICK17 = ["8x1", "8x3", "8x5", "16x3", "32x2", "64x1", "64x2", "64x3", "8x17", "64x16"]
@@ -20,6 +32,11 @@ def prim_amount(rng, ty, W):
 
 
 def gen(rng, tier):
+    if tier == "thorough":
+        # FromStr on every width 8..8192 (u8 digits): thresholds derived from BITS (seeded change C17-r4m2)
+        for l, t in _ws.parse_print(rng):
+            if l.startswith("from_str "):
+                yield l, t
     reps = 12 if tier == "thorough" else 2
     for cfg in (CFGS17 if tier == "thorough" else QUICK17):
         w, n = wn(cfg)
@@ -89,3 +106,12 @@ def gen(rng, tier):
                         yield f"add_digit u{cfg} {mode} {hx(a)} {hx(d)}", t
                         yield f"div_digit u{cfg} {mode} {hx(a)} {hx(d)}", t
                         yield f"rem_digit u{cfg} {mode} {hx(a)} {hx(d)}", t
+                        # carry chains of every length: the low k digits saturated (minus a small delta), the
+                        # digit operand just reaching / just missing the carry (added after seeded change C17-r4m1)
+                        for _ in range(4):
+                            k = rng.randrange(1, n + 1)
+                            delta = rng.choice([0, 0, 1, rng.randrange(1 << w)])
+                            up = rng.choice([0, 0, 1, (1 << w) - 1, rng.randrange(1 << w), rng.randrange(M)])
+                            a = (((1 << (w * k)) - 1 - delta) | (up << (w * k))) % M
+                            d = max(0, min((1 << w) - 1, delta + rng.choice([1, 1, 0, 2])))
+                            yield f"add_digit u{cfg} {mode} {hx(a)} {hx(d)}", "carry-chain-%d" % min(k, 4)
